@@ -1152,3 +1152,9 @@ PROOF_MODULES = PROOF_MODULES + ['Compute.Lemmas.FlModel']
 REQUIRED_THEOREMS = REQUIRED_THEOREMS + []
 _np = list(NOT_PROVED)
 NOT_PROVED = [x for x in _np if x is not None]
+
+# --- deep theorems (Rounding2)
+PROOF_MODULES = PROOF_MODULES + ['Compute.Lemmas.NormRounding', 'Compute.Props.Rounding2']
+REQUIRED_THEOREMS = REQUIRED_THEOREMS + ['Cv.Rounding2.normL_error', 'Cv.Rounding2.normL_error_idem', 'Cv.Rounding2.infNormL_error']
+NOT_PROVED = [x for x in NOT_PROVED if not any(k in str(x) for k in ('rounding bounds for norm, inf_norm, logsumexp',))]
+NOT_PROVED = NOT_PROVED + ['rounding of logsumexp / logmeanexp (oracle only); norm and inf_norm bounds ARE proved in the standard model with a sqrt of relative error <= u (Props/Rounding2)']
